@@ -26,7 +26,7 @@ CASES = {'quick': len(ENUM) + 5000, 'thorough': len(ENUM) * 4 + 60000}
 SMALL_BLOCKS = 4      # runner: every 4th case keeps its stores in 2..10-token blocks
 GATES = {
     'quick': {'cases_in_small_blocks': 50, 'evaluations': 7500, 'built': 4500, 'enumerated_subsets': len(ENUM), 'classes_from_value': 28, 'classes_from_children': 34,
-              'in_file_checks': 1500, 'value_readbacks': 10000, 'custom_values_needing_disambiguation': 8, 'custom_signed_after_number': 8},
+              'in_file_checks': 1500, 'comment_values_compared': 800, 'value_readbacks': 10000, 'custom_values_needing_disambiguation': 8, 'custom_signed_after_number': 8},
     'thorough': {'evaluations': 90000, 'classes_from_value': 28, 'classes_from_children': 34},
 }
 RULE = ('case = one constructed model. The first ' + str(len(ENUM)) + ' cases enumerate, for every model class and both constructors, every '
@@ -134,6 +134,17 @@ def check_model(col, m, cname, fn, args_desc, args):
     if clines(m.token_store) != clines(g.token_store):
         col.violation(f'comment-lines-differ:{cname}.{fn}', 'comment lines differ after re-parse', wit)
         return
+    # the comments say the same, whoever owns them after the re-parse: token by token where the two stores hold the same comment
+    # tokens (two adjacent comments of the constructed model become one token for the lexer - no pairing then)
+    cm = [t for t in m.token_store if isinstance(t, models.BlockComment)]
+    cg = [t for t in g.token_store if isinstance(t, models.BlockComment)]
+    if [t.raw_text for t in cm] == [t.raw_text for t in cg]:
+        for t1, t2 in zip(cm, cg):
+            col.count('comment_values_compared')
+            if (t1.value, t1.indent) != (t2.value, t2.indent):
+                col.violation(f'comment-value-differs:{fn}', f'the comment {t1.raw_text!r} has value {t1.value!r} (indent {t1.indent!r}) in the constructed '
+                              f'model and {t2.value!r} (indent {t2.indent!r}) after the re-parse', wit)
+                return
     # ... and both read the same through every public attribute (views, value properties, custom getters)
     dv = valuestate.first_difference(valuestate.value_state(m, inline_comments=True), valuestate.value_state(g, inline_comments=True))
     col.count('value_state_comparisons')
